@@ -80,13 +80,27 @@ def build_harness(profile='release'):
 
 # ---------------------------------------------------------------- running both sides
 
+def _big_stack():
+    # the extracted model recurses on list structure (32 KiB fixed values are 32768-element lists): give the
+    # OCaml driver - never the implementation harness - a 2 GiB stack
+    import resource
+    try:
+        resource.setrlimit(resource.RLIMIT_STACK, (2 << 30, resource.getrlimit(resource.RLIMIT_STACK)[1]))
+    except Exception:
+        pass
+
+
+def _pre(exe):
+    return _big_stack if os.sep + 'ocaml' + os.sep in exe else None
+
+
 def _run_shard(args):
     exe, extra, lines, timeout = args
     if not lines:
         return '', 0
     try:
         p = subprocess.run([exe] + extra, input='\n'.join(lines) + '\n', capture_output=True, text=True,
-                           timeout=timeout, env=ENV)
+                           timeout=timeout, env=ENV, preexec_fn=_pre(exe))
         return p.stdout, p.returncode
     except subprocess.TimeoutExpired:
         return '', -99
@@ -95,7 +109,7 @@ def _run_shard(args):
 def _run_one(exe, extra, line, timeout):
     try:
         p = subprocess.run([exe] + list(extra), input=line + '\n', capture_output=True, text=True,
-                           timeout=timeout, env=ENV)
+                           timeout=timeout, env=ENV, preexec_fn=_pre(exe))
         o = p.stdout.strip().split(' ', 1)
         if p.returncode == 0 and len(o) == 2:
             return o[1]
